@@ -21,7 +21,7 @@ from ..world import World, raw_http
 
 ID = "C13"
 RULE = (
-    "Request targets from an adversarial path grammar (real collection names, '..', '.', empty segment, Unicode compatibility look-alikes of '.', '..' and '/' (U+2024, U+2025, U+FF0E, U+FF0F, U+2215), %2e%2e, %2E., ..%2f, %2f, %5c.., doubly encoded ..%252f and %252e%252e, several encoded climbs inside one segment, '..;x', 300-char segment, 'etc', names of sentinel "
+    "Request targets from an adversarial path grammar (real collection names, '..', '.', empty segment, Unicode compatibility look-alikes of '.', '..' and '/' (U+2024, U+2025, U+FF0E, U+FF0F, U+2215), %2e%2e, %2E., ..%2f, %2f, %5c.., doubly encoded ..%252f and %252e%252e, backslash climbs inside one segment (..%5C..%5C.., literal and encoded), several encoded climbs inside one segment, '..;x', 300-char segment, 'etc', names of sentinel "
     "directories that exist next to the data directory - including data.bak, whose name starts with the root's own name - and '.git'; 1-8 segments after a real base path, optional trailing slash, "
     "optional route prefix, targets without leading '/'; and the absolute file-system path of a sentinel (or of the data directory itself) behind one to four slashes) x method {GET, HEAD, PUT, POST, DELETE, MKCOL, extended MKCOL, MKCALENDAR, PROPFIND Depth 0/1, PROPPATCH, REPORT multiget (hrefs from the same "
     "grammar), sync, query, OPTIONS}; a third of the PUT/POST bodies carry a path-like UID (relative climbs, '..', an absolute name inside the harness' scratch area, the sibling data.bak, "
@@ -35,7 +35,7 @@ RULE = (
 
 # compatibility look-alikes of '.', '..' and '/': U+2025 two dot leader, U+FF0E fullwidth full stop, U+2024 one dot leader, U+FF0F fullwidth solidus, U+2215 division slash
 LOOKALIKES = ["%E2%80%A5", "%EF%BC%8E%EF%BC%8E", "%E2%80%A4%E2%80%A4", "%EF%BC%8E", "%E2%80%A5%EF%BC%8F%E2%80%A5%EF%BC%8Fx.ics", "..%EF%BC%8F..%EF%BC%8Fsecret", "%E2%80%A5%E2%88%95%E2%80%A5", "%EF%BC%8E%EF%BC%8E%EF%BC%8Fdata.bak"]
-SEGMENTS = LOOKALIKES + ["..", "..", "..", ".", "", "%2e%2e", "%2E.", ".%2e", "..%2f", "..%2f..", "%2f", "%5c..", "..;x", "..%252f", "%252e%252e", "..%252F..%252F..%252F..%252F..%252Fdd.ics", "..%2f..%2f..%2f..%2f..%2fsd.ics", "%252e%252e%252fx", "A" * 300, "etc", "secret", "victim", "esc", "data.bak", "data2", "data", ".git", "user", "calendars", "calendar", "x.ics", "newcol", "a.txt", "tmp"]
+SEGMENTS = LOOKALIKES + ["..%5C..", "..%5C..%5C..%5Csecret%5Ca.txt", "..", "..", "..", ".", "", "%2e%2e", "%2E.", ".%2e", "..%2f", "..%2f..", "%2f", "%5c..", "..;x", "..%252f", "%252e%252e", "..%252F..%252F..%252F..%252F..%252Fdd.ics", "..%2f..%2f..%2f..%2f..%2fsd.ics", "%252e%252e%252fx", "A" * 300, "etc", "secret", "victim", "esc", "data.bak", "data2", "data", ".git", "user", "calendars", "calendar", "x.ics", "newcol", "a.txt", "tmp"]
 BASES = ["", "/user", "/user/calendars", "/user/calendars/calendar", "/user/contacts/addressbook", "/user/calendars/calendar/ev.ics"]
 METHODS = ["GET", "HEAD", "PUT", "POST", "DELETE", "MKCOL", "MKCOL-ext", "MKCALENDAR", "PROPFIND0", "PROPFIND1", "PROPPATCH", "REPORT-multiget", "REPORT-sync", "REPORT-query", "OPTIONS"]
 
@@ -70,6 +70,9 @@ def hostile_uid(kind, abs_base):
 
 
 TERMINALS = [
+    "..%5C..%5C..%5C..%5C..%5Cbs.ics",
+    "..%5c..%5c..%5c..%5c..%5c..%5cdata.bak%5cbs2.ics",
+    "..\\..\\..\\..\\..\\raw-bs.ics",
     "%E2%80%A5%EF%BC%8F%E2%80%A5%EF%BC%8F%E2%80%A5%EF%BC%8F%E2%80%A5%EF%BC%8F%E2%80%A5%EF%BC%8Fuu.ics",
     "%EF%BC%8E%EF%BC%8E%EF%BC%8F%EF%BC%8E%EF%BC%8E%EF%BC%8F%EF%BC%8E%EF%BC%8E%EF%BC%8F%EF%BC%8E%EF%BC%8E%EF%BC%8Fnewcol",
     "..%252F..%252F..%252F..%252F..%252Fdd.ics",
